@@ -54,12 +54,13 @@ import (
 const c09Lease = 100 * time.Millisecond
 
 type c09Op struct {
-	K     string     `json:"k"` // http | write | other | jobStart | jobEnd | expire
+	K     string     `json:"k"` // http | write | txn | other | jobStart | jobEnd | expire
 	Sync  string     `json:"sync,omitempty"`
 	Start bool       `json:"start,omitempty"`
 	End   bool       `json:"end,omitempty"`
 	Run   int        `json:"run,omitempty"`
 	Ents  []*kit.Ent `json:"ents,omitempty"`
+	Other []*kit.Ent `json:"other,omitempty"` // txn: the part written to the other dataset
 	// Stall (end requests of short-lease cases): the completion's deletion pass is held up for 2.5
 	// leases at its first write (a slow disk, a writer holding the dataset lock). The request arrived
 	// in time; how long its completion takes must not matter.
@@ -268,6 +269,24 @@ func (c *c09m) apply(op c09Op) {
 		c.write(op.Ents)
 		if c.act != nil {
 			c.cls["plain-write-during-sync"] = true
+		}
+	case "txn":
+		// a transaction (POST /transactions, ExecuteTransaction of a transform) writing to the dataset:
+		// a write like any other - what it writes while a sync is active is part of that sync
+		parts := map[string][]*kit.Ent{"d": op.Ents}
+		if len(op.Other) > 0 {
+			parts["o"] = op.Other
+		}
+		if err := c.h.Txn(parts, op.Run == 1); err != nil {
+			c.fail("ExecuteTransaction failed: %v", err)
+		}
+		if !c.post(wasLeased, lastBefore) {
+			return
+		}
+		c.write(op.Ents)
+		c.m.Write("o", op.Other)
+		if c.act != nil {
+			c.cls["transaction-during-sync"] = true
 		}
 	case "other":
 		if err := c.h.StoreBatch("o", op.Ents, "store"); err != nil {
@@ -647,6 +666,16 @@ func c09Actions(c *c09m) map[string]func(*rapid.T) {
 		"batch": func(t *rapid.T) { c.apply(c.genHTTP(t, "batch")) },
 		"end":   func(t *rapid.T) { c.apply(c.genHTTP(t, "end")) },
 		"write": func(t *rapid.T) { c.apply(c09Op{K: "write", Ents: c.genEnts(t, 1, 3, "d")}) },
+		"txn": func(t *rapid.T) {
+			op := c09Op{K: "txn", Ents: c.genEnts(t, 1, 3, "d")}
+			if rapid.Bool().Draw(t, "twoDatasets") {
+				op.Other = c.genEnts(t, 1, 2, "o")
+			}
+			if rapid.Bool().Draw(t, "contextualStore") {
+				op.Run = 1
+			}
+			c.apply(op)
+		},
 		"other": func(t *rapid.T) {
 			if rapid.IntRange(0, 2).Draw(t, "rare") != 0 {
 				t.Skip("rare")
